@@ -28,7 +28,7 @@ PROP = {
 }
 
 TEXT = {
-    "text": ('Theorems: the items of a range (rangeItems: none when b < a, else a..b in order; a loop visits them when b - a <= 100000, beyond that the model answers `unmodelled` for every range loop), arrays/maps/nil item lists, selection = reverse, then skip '
+    "text": ('Theorems: the items of a range (rangeItems: none when b < a, else a..b in order; a loop visits exactly them, in order, whatever their number: range_loop_any_size - the Go code iterates a range lazily without limit, and the only bound of the model, Cfg.budget (the largest b - a whose items the EXECUTABLE model materialises; default 100000, used by the driver; no counterpart in the code), is a parameter over which every theorem is universally quantified: for every range there is a budget, under every budget >= b - a the loop visits rangeItems a b (loopItems_range), and raising the budget never changes an answer that was given - for the items (budget_monotone_loopItems), for a loop node (budget_monotone_loop_node) and for a whole render through all nodes, captures and included files, together with the budget of the array conversion of a range (budget_monotone, budget_monotone_std, budget_monotone_runStd; Proofs.Budget: run_le)), arrays/maps/nil item lists, selection = reverse, then skip '
               'offset, then take limit (select_spec), else clause exactly when nothing is selected, '
               'forloop.index/index0/rindex/rindex0/length/first/last by formula for every iteration, break/continue consumed by '
               'the innermost loop (iterate_consumes for for and tablerow; iterate_break, iterate_next for `for`), cycle counters per loop execution and group '
@@ -38,12 +38,12 @@ TEXT = {
               '(List.foldl of iterStep) over the selected items of the body run with the loop variable and forloop bound by the '
               'formulas (tablerow: between its cell decorations), cut at the first break, going on after continue, failures '
               'located at the loop tag, with forloop and the loop variable restored at the end; nothing selected and an else '
-              'clause: that clause. From source bytes (Proofs.C11Source; clean item lists, any good delimiters, every value layer, any output layer that prints an int as its decimal text - the standard one does), for int64 a, b with b - a <= 100000 and an identifier i other than forloop: for a <= b the source {% for i in (a..b) %}{{ i }}{% endfor %}, a and b in decimal, makes run return exactly the decimal numerals of a, a+1, ..., b concatenated (for_range_numerals_source; the arguments are parsed by the scanner and grammar model, parse_rangeArgs); for any a, b, with reversed and int64 literal offset:/limit: arguments (each optional), the numerals of selectItems reversed off lim [a..b] (for_range_mods_source, parse_rangeArgs_mods; for_range_source for any argument text that parses so); a loop variable named forloop is shadowed by the forloop record (for_var_named_forloop). Tie: the `loops` stream '
+              'clause: that clause. From source bytes (Proofs.C11Source; clean item lists, any good delimiters, every value layer, any output layer that prints an int as its decimal text - the standard one does), for int64 a, b, every configuration whose budget is at least b - a (cfg.budget is arbitrary) and an identifier i other than forloop: for a <= b the source {% for i in (a..b) %}{{ i }}{% endfor %}, a and b in decimal, makes run return exactly the decimal numerals of a, a+1, ..., b concatenated (for_range_numerals_source; the arguments are parsed by the scanner and grammar model, parse_rangeArgs); for any a, b, with reversed and int64 literal offset:/limit: arguments (each optional), the numerals of selectItems reversed off lim [a..b] (for_range_mods_source, parse_rangeArgs_mods; for_range_source for any argument text that parses so); a loop variable named forloop is shadowed by the forloop record (for_var_named_forloop). Tie: the `loops` stream '
               '(exhaustive offset/limit/reversed/cols/break grid plus random nestings) answers every case by the model and the '
               'real engine, and the real output is compared byte for byte with an independent reference loop '
               '(harness/ref_prog.go).'),
     "design_ref": 'DESIGN.md 6 C11',
-    "note": NOTE + ("A range loop is modelled for b - a <= 100000 only: beyond that loopItems answers `unmodelled` (a boundary of the model, not of the code; the loops stream generates no such range), so the bound applies to every theorem whose hypotheses mention the items of a range value, not only to the source-level ones. The denotation theorems are stated for a loop with at most one else clause (the compiler accepts more, the model treats that case separately), after the collection and the modifiers have evaluated, on a writer that does not fail; iterate_break / iterate_next are stated for `for`, a break or continue inside tablerow is covered by loop_denotation / tablerow_denotation. The source-level theorems are about one shape, {% for i in (a..b) mods %}{{ i }}{% endfor %} with int64 literals, a clean item list (Clean, DESIGN 7.1) and a loop variable other than forloop (needed: for_var_named_forloop). select_spec and tablerow_before/after restate the definitions of the model in readable form; that the model describes tags/iteration_tags.go is what the loops stream checks."),
+    "note": NOTE + ("No theorem carries a bound on the size of a range: the number 100000 is the default of Cfg.budget, which only the driver (the model binary the streams run against) uses - there a loop over a longer range is answered `unmodelled` (the loops stream generates no such range); the theorems are stated for every budget, and by budget_monotone a result obtained under one budget is the result under every larger one. The same holds for the second model-only number, the 10^6 of the array conversion of a range (C15; the value layer of a render is the parameter P, the standard one stdPrimsB n for every n). The denotation theorems are stated for a loop with at most one else clause (the compiler accepts more, the model treats that case separately), after the collection and the modifiers have evaluated, on a writer that does not fail; iterate_break / iterate_next are stated for `for`, a break or continue inside tablerow is covered by loop_denotation / tablerow_denotation. The source-level theorems are about one shape, {% for i in (a..b) mods %}{{ i }}{% endfor %} with int64 literals, a clean item list (Clean, DESIGN 7.1) and a loop variable other than forloop (needed: for_var_named_forloop). select_spec and tablerow_before/after restate the definitions of the model in readable form; that the model describes tags/iteration_tags.go is what the loops stream checks."),
     "technique": ('Lean 4 proof (list lemmas for selection; induction over the iteration of the render model; loop = left fold) + model/implementation '
               'correspondence + independent reference oracle'),
 }
